@@ -5,6 +5,9 @@
 (* restart point, so every prefix of every interleaving of the steps           *)
 (*   start(t) persist(t)            two updaters, NUpd updates each            *)
 (*   paystart emit(ok|fail) persistcheque      one payer (VERIF_PAY=1)         *)
+(*   refstart refget refget        a live refresh (TrafficInit) of peer 1 by a *)
+(*                                 goroutine of its own (VERIF_REFRESH=1): its *)
+(*                                 two reads of the persisted totals are gates *)
 (* is emitted as a scenario, followed by the fixed suffix                      *)
 (*   restart; for each peer: reconnect, credit Thr, pay                        *)
 (* which observes the restored totals and the first cheque after the restart.  *)
@@ -14,15 +17,20 @@
 EXTENDS Traffic, TLC, Json, IOUtils
 VARIABLES hist, cnt
 
-GThreads == {1, 2, 3}
+GThreads == {1, 2, 3, 4}
 GAmounts == {1, 2}
 Updaters == {1, 2}
 Payer == 3
+Refresher == 4
 
 EnvOr(n, d) == IF n \in DOMAIN IOEnv THEN IOEnv[n] ELSE d
 NUpd    == atoi(EnvOr("VERIF_NUPD", "2"))
 WithPay == EnvOr("VERIF_PAY", "0") = "1"
 Wide    == EnvOr("VERIF_WIDE", "0") = "1"
+WithRefresh == EnvOr("VERIF_REFRESH", "0") = "1"
+\* updates of the second updater (default: as many as the first)
+NUpd2   == atoi(EnvOr("VERIF_NUPD2", EnvOr("VERIF_NUPD", "2")))
+NUpdOf(t) == IF t = 2 THEN NUpd2 ELSE NUpd
 
 \* what an updater may do: <<kind, peer, amount>>; thread 1 adds 1s, thread 2 adds 2s
 Choices(t) ==
@@ -31,8 +39,9 @@ Choices(t) ==
   ELSE {<<"owed", 1, 2>>, <<"served", 1, 2>>, <<"owed", 2, 2>>}
 
 \* sequential prefix: with a payer, peer 1 is owed the threshold already
-Pre == IF WithPay THEN <<[p |-> 1, x |-> Thr]>> ELSE <<>>
-Start0 == IF WithPay THEN [Credit(InitS, "owed", 1, Thr) EXCEPT !.ack = InitS.ack] ELSE InitS
+\* (likewise with a refresher: the refresh only visits peers that have a record)
+Pre == IF WithPay \/ WithRefresh THEN <<[p |-> 1, x |-> Thr]>> ELSE <<>>
+Start0 == IF WithPay \/ WithRefresh THEN [Credit(InitS, "owed", 1, Thr) EXCEPT !.ack = InitS.ack] ELSE InitS
 
 GInit == S = Start0 /\ res = [op |-> "init"] /\ nops = 0 /\ hist = <<>> /\ cnt = [t \in GThreads |-> 0]
 
@@ -40,7 +49,7 @@ Step(s2, o) == S' = s2 /\ hist' = Append(hist, o) /\ res' = [op |-> o.op] /\ UNC
 
 GNext ==
   \/ \E t \in Updaters : \E c \in Choices(t) :
-       /\ cnt[t] < NUpd /\ UpdStartOK(S, t, c[2])
+       /\ cnt[t] < NUpdOf(t) /\ UpdStartOK(S, t, c[2])
        /\ Step(UpdStart(S, t, c[1], c[2], c[3]), [op |-> "start", t |-> t, k |-> c[1], p |-> c[2], x |-> c[3]])
        /\ cnt' = [cnt EXCEPT ![t] = @ + 1]
   \/ \E t \in Updaters : UpdPersistOK(S, t) /\ Step(UpdPersist(S, t), [op |-> "persist", t |-> t]) /\ UNCHANGED cnt
@@ -49,6 +58,11 @@ GNext ==
      /\ cnt' = [cnt EXCEPT ![Payer] = @ + 1]
   \/ \E ok \in BOOLEAN : PayEmitOK(S, Payer) /\ Step(PayEmit(S, Payer, ok), [op |-> "emit", t |-> Payer, ok |-> ok]) /\ UNCHANGED cnt
   \/ PayPersistOK(S, Payer) /\ Step(PayPersist(S, Payer), [op |-> "persistcheque", t |-> Payer]) /\ UNCHANGED cnt
+  \/ /\ WithRefresh /\ cnt[Refresher] < 1 /\ RefStartOK(S, Refresher, 1)
+     /\ Step(RefStart(S, Refresher, 1), [op |-> "refstart", t |-> Refresher, p |-> 1])
+     /\ cnt' = [cnt EXCEPT ![Refresher] = @ + 1]
+  \/ RefGet1OK(S, Refresher) /\ Step(RefGet1(S, Refresher), [op |-> "refget", t |-> Refresher]) /\ UNCHANGED cnt
+  \/ RefGet2OK(S, Refresher) /\ Step(RefGet2(S, Refresher), [op |-> "refget", t |-> Refresher]) /\ UNCHANGED cnt
 GSpec == GInit /\ [][GNext]_<<vars, nops, hist, cnt>>
 
 RECURSIVE SuffixFrom(_)
